@@ -86,6 +86,9 @@ func genConfig(t *rapid.T, p profile) harness.Config {
 	c.LegacyRedirect = chance(t, "legacyredirect", 12)
 	c.NilEmptyState = chance(t, "nilemptystate", 20)
 	c.MiddlewareEarly = chance(t, "middlewareearly", 20)
+	if chance(t, "localizer", 20) {
+		c.Localizer = "untranslated"
+	}
 	if chance(t, "extrarules", 20) {
 		c.ExtraRulePages = subset(t, "rulepages", []string{"login", "recover_start", "recover_end", "register", "confirm"}, 50)
 	}
@@ -116,7 +119,11 @@ func genConfig(t *rapid.T, p profile) harness.Config {
 	if c.Middleware == "remember" && !c.Has("remember") {
 		c.Modules = append(c.Modules, "remember")
 	}
+	if !c.Has("remember") && c.Middleware != "remember" && chance(t, "nocookiestore", 35) {
+		c.NoCookieStore = true // an application without remember-me leaves the cookie store out
+	}
 	if c.Has("oauth2") {
+		c.StockDetails = chance(t, "stockdetails", 40)
 		c.Providers = []string{"goog", "fb"}[:rapid.IntRange(1, 2).Draw(t, "nprov")]
 	}
 	c.Browsers = rapid.IntRange(p.browsers[0], p.browsers[1]).Draw(t, "browsers")
@@ -290,8 +297,8 @@ func drawOp(t *rapid.T, kind string, e genEnv) Op {
 		op.A = drawTarget(t, e)
 		drawSecret(t, &op, e, poolPassword)
 		op.F = chance(t, "rm", 35)
-		if !op.F && chance(t, "rmfalse", 20) {
-			op.N = 1
+		if !op.F && chance(t, "rmfalse", 25) {
+			op.N = rapid.IntRange(1, len(rmRefusals)).Draw(t, "rmspelling")
 		}
 		op.S2 = pick(t, "redir", redirPool...)
 	case "otplogin":
@@ -633,6 +640,23 @@ func drawSnippet(t *rapid.T, name string, e genEnv) []Op {
 		ops = append(ops, Op{K: "evstart", B: b, N: k})
 		ops = append(ops, Op{K: pick(t, "leave", "newsess", "logout", "newsess"), B: b})
 		ops = append(ops, Op{K: "evend", B: b, A: a, N: k, Src: "evtok", SA: a})
+	case "evshare":
+		// two accounts use one browser session one after the other (no logout in between) and both ask for the 2FA verification mail
+		if !c.Has("auth") || !c.EmailAuth || e.nAcct < 2 {
+			return nil
+		}
+		k := rapid.IntRange(0, 1).Draw(t, "evkind")
+		a2 := (a + 1 + rapid.IntRange(0, e.nAcct-2).Draw(t, "other")) % e.nAcct
+		for _, x := range []int{a, a2} {
+			ops = append(ops, Op{K: "login", B: b, A: x, Src: "pw", SA: x})
+			if c.HasSetup("totp") {
+				ops = append(ops, Op{K: "totpvalidate", B: b, A: x, Src: "totp", SA: x})
+			}
+			if c.HasSetup("sms") {
+				ops = append(ops, Op{K: "smsvalidate", B: b, A: x, Src: "smssess"})
+			}
+			ops = append(ops, Op{K: "evstart", B: b, N: k})
+		}
 	case "mangle":
 		// realistic manglings of genuine mailed tokens (copy/paste accidents)
 		mut := pick(t, "mangle", "dot", "space", "ext", "crlf", "lead", "double", "std64", "trunc")
@@ -925,6 +949,16 @@ func drawSnippet(t *rapid.T, name string, e genEnv) []Op {
 			ops = append(ops, Op{K: "newsess", B: b})
 		}
 		ops = append(ops, Op{K: "login", B: b2, A: a, Src: "pw", SA: a}, Op{K: "totpvalidate", B: b2, A: a, Src: "totp", SA: a})
+	case "removereplay":
+		// log in with TOTP code X, then present X again where a code disables the factor
+		if !c.HasSetup("totp") || !c.Has("auth") {
+			return nil
+		}
+		ops = append(ops, login, Op{K: "totpvalidate", B: b, A: a, Src: "totp", SA: a})
+		if chance(t, "gap", 30) {
+			ops = append(ops, Op{K: "advance", N: pick(t, "rgap", 1, 3, 8)})
+		}
+		ops = append(ops, Op{K: "totpremove", B: b, A: a, Src: pick(t, "rsrc", "totp", "totp", "totpprev"), SA: a})
 	case "enrol-sms":
 		if !c.HasSetup("sms") || !c.Has("auth") {
 			return nil
